@@ -8,6 +8,8 @@ CHECKS = {
          "function-level entry points (exported verifiers, decoders); protocol-level injection is added by the protocol harness when present; wire codec (protobuf) not modelled"),
  "C10": ("Lean completeness theorems for the proof systems under explicit good-coin predicates; tie = cross-verification: Go-made proofs judged by the Lean verifiers and Lean-made proofs judged by the Go verifiers, plus wire round-trips",
          "completeness is proved for the model; a negligible set of coins (explicit predicate) makes honest proofs fail"),
+ "C11": ("Lean theorems: for every verifier, acceptance implies every guard and every verification equation (ranges, gcds, small-prime table, Jacobi, bit lengths, the point relation), plus exact extraction lemmas (Schnorr special soundness, dln both-bits, plaintext/multiplier/mask bounds); tie = both verifiers judge false-statement families produced by the library's provers on bad witnesses and by harness-built transcripts",
+         "cryptographic soundness against arbitrary provers is statistical/computational and is not stated; the no-small-factor proof has slack q^4 by design"),
  "C12": ("Lean theorems on challenge pre-image injectivity and response non-malleability; tie = both verifiers judge every substitution and single-component perturbation of accepted proofs",
          "collision resistance of SHA-512/256 appears as the alternative conclusion; soundness against adaptive provers not claimed"),
  "C13": ("Lean proof that the MtA exchange of the model (AliceInit, BobMid(WC), AliceEnd(WC) over the Paillier and proof-system models) yields alpha+beta = ab mod q under the no-wrap bound implied by 2048-bit moduli, that shares are produced only behind accepted proof gates, and that altered ciphertexts change the hashed pre-image; tie = whole exchanges run by the library with Alice's last step as an exact op",
